@@ -34,7 +34,8 @@ def main():
         ncaught += bool(caught)
         status = ', '.join(caught) if caught else (
             '**not evaluated: ' + res['error'][:40] + '**'
-            if res.get('error') else '**missed**')
+            if res.get('error') else '**not caught** (%s)'
+            % meta.get('not_caught_because', 'reason not recorded'))
         rows.append('| %s | %s | %s | %s | %s |' % (
             sid, meta['property'], meta['what'].replace('|', '/'), status,
             ', '.join(sigs)[:110]))
